@@ -77,7 +77,11 @@ class Naming(abc.ABC):
         """
         # Determine the set of proto packages.
         proto_packages = {fd.package for fd in file_descriptors}
-        root_package = os.path.commonprefix(tuple(proto_packages)).rstrip(".")
+        # The common prefix is taken over package segments: `foo.v1.enums`
+        # and `foo.v1.errors` share `foo.v1`, not `foo.v1.e`.
+        root_package = ".".join(
+            os.path.commonprefix([p.split(".") for p in sorted(proto_packages)])
+        )
 
         # Quick check: If there is no common ground in the package,
         # we are obviously in trouble.
